@@ -70,13 +70,19 @@ inline u64 sentv(u64 pos) { return mix(0xD00D000000000000ULL + pos) | 0x80000000
 //   0 consecutive (idx[k] = idx[k-1] + dim), 1 jump (idx[k] = max used + dim + 1), 2 wrap (idx[k] = min used - 9*dim - 1);
 // every word designates L distinct, non-overlapping elements (a run after a wrap is at most 7 elements long and stays below
 // the previous minimum), so the words are legal for results as well
+// repeat words (INPUT operands only): code RW + sum g_k 4^(k-1) with the fourth gap kind 3 = repeat (idx[k] = idx[k-1]): lists in
+// which some neighbours designate the same element and others do not
+static const int RW = 1000000;
 inline u64 gapval(int code, int k, int L, int dim)
 {
     u64 cur = (u64)(9 * dim + 1) * 8, lo = cur, hi = cur;
+    int base = 3;
+    if (code >= RW) { code -= RW; base = 4; }
     for (int j = 1; j <= k; j++)
     {
-        int g = code % 3;
-        code /= 3;
+        int g = code % base;
+        code /= base;
+        if (g == 3) continue;
         cur = g == 0 ? cur + dim : g == 1 ? hi + dim + 1 : lo - 9 * dim - 1;
         lo = std::min(lo, cur);
         hi = std::max(hi, cur);
@@ -968,6 +974,41 @@ inline void run_gaps(int si, const char *prop)
             rep().viol(std::string(prop) + "." + f.substr(0, t) + "." + s.id + sig_suffix(c), cs_, fmt("%s(%s) %s:%d: ", s.name, s.decl, s.file, s.line) + f.substr(t + 1));
             if (++nv >= 40) goto done;
         }
+    // repeat words on the input operands: every word over {consecutive, jump, wrap, repeat}^(L-1) with at least one repeat
+    {
+        std::vector<int> inq;
+        for (int q : iq) if (q != 0) inq.push_back(q);
+        int nw4 = 1;
+        for (int k = 1; k < L; k++) nw4 *= 4;
+        for (int code = 1; code < nw4 && !inq.empty(); code++)
+        {
+            bool hasrep = false;
+            for (int t = code, k = 1; k < L; k++, t /= 4) hasrep |= (t % 4 == 3);
+            if (!hasrep) continue;
+            for (size_t pick = 0; pick <= inq.size(); pick++)
+            {
+                if (pick == inq.size() && inq.size() < 2) continue;
+                Case c;
+                memset(&c, 0, sizeof c);
+                c.si = si;
+                c.vm = 1;
+                for (int q = 0; q < 3; q++)
+                {
+                    const Operand &o = opnd(s, q);
+                    c.s[q] = o.kind;
+                    bool mine = q != 0 && o.carrier == C_ARR_IDX && (pick == inq.size() || inq[pick] == q);
+                    c.ip[q] = mine ? NIP + RW + code : IP_IDENT;
+                }
+                std::string cs_ = casestr(c);
+                if (g_cur) { strncpy(g_cur, cs_.c_str(), 4000); g_cur[4000] = 0; }
+                std::string f = run_case(c, &cnt);
+                if (f.empty()) continue;
+                size_t t = f.find('\t');
+                rep().viol(std::string(prop) + "." + f.substr(0, t) + "." + s.id + sig_suffix(c), cs_, fmt("%s(%s) %s:%d: ", s.name, s.decl, s.file, s.line) + f.substr(t + 1));
+                if (++nv >= 40) goto done;
+            }
+        }
+    }
 done:
     if (g_cur) g_cur[0] = 0;
     const char *pre = OVL_EXACT ? "asan_" : "";
